@@ -125,43 +125,48 @@ let handle kind a =
        | NePanic -> Some "Panic"
        | NeDiverges -> Some "Diverges")
   | "nfd" ->
-      (match nx_decode_s (bytes_of_hex a.(2)) (n_of_dec a.(1)) with
-       | DOk bs -> Some (long_obs bs)
-       | DErr -> Some "Err"
-       | DPanic -> Some "Panic"
-       | DUnsupported -> Some "unsupported")
+      (* the capped decoder (NV.Cram.Nx16Cap, cap = 2^22): Capped = a declared size above the cap *)
+      (match nx_decode_s_capped (bytes_of_hex a.(2)) (n_of_dec a.(1)) with
+       | Capped -> Some "Capped"
+       | Within (DOk bs) -> Some (long_obs bs)
+       | Within DErr -> Some "Err"
+       | Within DPanic -> Some "Panic"
+       | Within DUnsupported -> Some "unsupported")
   | "aae" ->
       (match aac_encode_r_byte (n_of_dec a.(0)) (bytes_of_hex a.(1)) with
        | AeOk bs -> Some (long_obs bs)
        | AeUnsupported -> Some "unsupported"
        | AePanic -> Some "Panic")
   | "aad" ->
-      (match aac_decode_r (bytes_of_hex a.(2)) (n_of_dec a.(1)) with
-       | DOk bs -> Some (long_obs bs)
-       | DErr -> Some "Err"
-       | DPanic -> Some "Panic"
-       | DUnsupported -> Some "unsupported")
+      (match aac_decode_r_capped (bytes_of_hex a.(2)) (n_of_dec a.(1)) with
+       | Capped -> Some "Capped"
+       | Within (DOk bs) -> Some (long_obs bs)
+       | Within DErr -> Some "Err"
+       | Within DPanic -> Some "Panic"
+       | Within DUnsupported -> Some "unsupported")
   | "fqe" ->
       let lens = if a.(0) = "_" then [] else List.map (fun x -> nat_of_int (int_of_string x)) (String.split_on_char ',' a.(0)) in
       (match fqz_encode lens (bytes_of_hex a.(1)) with
        | Some bs -> Some (long_obs bs)
        | None -> Some "Panic")
   | "fqd" ->
-      (match fqz_decode (bytes_of_hex a.(0)) with
-       | FOk bs -> Some (long_obs bs)
-       | FErr -> Some "Err"
-       | FPanic -> Some "Panic"
-       | FUnsupported -> Some "unsupported")
+      (match fqz_decode_capped (bytes_of_hex a.(0)) with
+       | Capped -> Some "Capped"
+       | Within (FOk bs) -> Some (long_obs bs)
+       | Within FErr -> Some "Err"
+       | Within FPanic -> Some "Panic"
+       | Within FUnsupported -> Some "unsupported")
   | "nme" ->
       (match names_encode (bytes_of_hex a.(0)) with
        | NmOk bs -> Some (long_obs bs)
        | NmErr -> Some "Err"
        | NmPanic -> Some "Panic")
   | "nmd" ->
-      (match names_decode (bytes_of_hex a.(0)) with
-       | NmOk bs -> Some (long_obs bs)
-       | NmErr -> Some "Err"
-       | NmPanic -> Some "Panic")
+      (match names_decode_capped (bytes_of_hex a.(0)) with
+       | Capped -> Some "Capped"
+       | Within (NmOk bs) -> Some (long_obs bs)
+       | Within NmErr -> Some "Err"
+       | Within NmPanic -> Some "Panic")
   | _ -> None
 
 let () = run_driver handle
